@@ -67,6 +67,7 @@ type GhostVar struct {
 type Pred struct {
 	Name    string
 	Params  string
+	Result  string // result type text ("" = bool)
 	Body    string
 	PkgPath string
 	Src     string
@@ -182,8 +183,13 @@ func (db *ContractDB) parseContractFile(path, pkgPath string, prefix string, ass
 				return fmt.Errorf("%s: bad pred", src)
 			}
 			body := strings.TrimSpace(rest[j+1:])
+			resT := ""
+			if ci := strings.Index(body, ":"); ci > 0 {
+				resT = strings.TrimSpace(body[:ci])
+				body = body[ci:]
+			}
 			body = strings.TrimPrefix(body, ":")
-			p := &Pred{Name: strings.TrimSpace(rest[:i]), Params: rest[i+1 : j], Body: strings.TrimSpace(body), PkgPath: pkgPath, Src: src}
+			p := &Pred{Name: strings.TrimSpace(rest[:i]), Params: rest[i+1 : j], Result: resT, Body: strings.TrimSpace(body), PkgPath: pkgPath, Src: src}
 			db.Preds[pkgPath+" "+p.Name] = p
 			cur = nil
 			curUF = nil
